@@ -704,7 +704,7 @@ func C15(tier common.Tier) int {
 	budget := 40 * time.Second
 	if tier == "thorough" {
 		depth, openDepth, argDepth, argDepth2 = 5, 4, 5, 4
-		budget = 15 * time.Minute
+		budget = 40 * time.Minute
 	}
 	if v, err := strconv.Atoi(os.Getenv("MC_C15_BUDGET_S")); err == nil && v > 0 {
 		budget = time.Duration(v) * time.Second
